@@ -214,6 +214,43 @@ class Ctx:
                       self.loc(f, live[0]) if live else self.loc(f), {'rule': rule, 'guard': what, 'fn': f.id, 'candidates': len(cands)})
         return ok
 
+    def loop_heads(self, f):
+        return {c.bb for c in f.calls if (c.defp or '').endswith('Iterator::next')}
+
+    def iter_guard(self, rule, key, f, targets, matcher, what, assume=()):
+        """a per-iteration filter (`if bad { continue }` / `{ return Err }`) in a loop body: within one iteration (loop heads
+        blocked) the reject arm of the condition cannot reach the effect, while its pass arm can. matcher returns the PASS arm."""
+        heads = self.loop_heads(f)
+        base = f.reach([0])
+        live = [t for t in targets if t in base]
+        cands = self.find_conds(f, matcher)
+        removed = []
+        for am in assume:
+            for (c, arm) in self.find_conds(f, am):
+                if arm in c.arms:
+                    removed.append(self.edge(c, arm))
+        ok = False
+        for (c, arm) in cands:
+            if arm not in c.arms or c.bb not in base:
+                continue
+            rej = [tb for a2, tb in c.arms.items() if a2 != arm and tb != c.arms[arm]]
+            if not rej:
+                continue
+            # the rejected item must not reach the effect within the same iteration of some enclosing loop: try all loop
+            # heads blocked first, then each single head (two-phase loop bodies cross inner loop heads on the pass path)
+            for hs in [heads] + [{h} for h in sorted(heads)]:
+                if set(live) & f.reach(rej, blocked=hs, removed=removed):
+                    continue
+                if not (set(live) & f.reach([c.arms[arm]], blocked=hs)):
+                    continue
+                ok = True
+                break
+            if ok:
+                break
+        self.rep.need(rule, key, ok and bool(live), 'per-iteration filter "%s" must stand between the loop head and %d effect site(s) in %s (%d candidate condition(s))' % (what, len(live), f.id, len(cands)),
+                      self.loc(f, live[0]) if live else self.loc(f), {'rule': rule, 'guard': what, 'fn': f.id, 'candidates': len(cands)})
+        return ok
+
     def call_guard(self, rule, key, f, targets, pred_call, what, min_targets=1):
         """K6a: a call satisfying pred_call, with its error propagated (`?` / returned), dominates every target block"""
         base = f.reach([0], blocked=f.errblocks)
@@ -483,6 +520,8 @@ def m_boolatoms(pats, holds):
         if c.kind not in ('pred', 'rel'):
             return None
         at = c.A | c.B
+        if c.kind == 'pred' and isinstance(c.pred, str) and '::' in c.pred:
+            at = at | {('C', c.pred)}
         if not has_all(at, pats):
             return None
         return True if holds else False
